@@ -47,6 +47,7 @@ def check(run):
     # large free-running workloads with linear-time necessary conditions (swap chains, CAS increments)
     cnt = run_driver(run, "atomicvalue-count", [dict(kind="swapchain", threads=8, ops=250, rounds=20 if q else 300),
                                                 dict(kind="casinc", threads=8, ops=2000, rounds=20 if q else 300),
+                                                dict(kind="casinc-refresh", threads=8, ops=2000, rounds=20 if q else 300),
                                                 dict(kind="eqstore", threads=4, ops=20000, rounds=10 if q else 100)])
     hist = hist + [[dict(ev="reset", ty="int"), e] for e in cnt]
     validate(run, "atomics", "RegisterAbsTrace", dict(NT=6), seq + hist, [], plans=None, label="register")
@@ -54,6 +55,15 @@ def check(run):
     pl = [dict(threads=4, ops=30, rounds=20 if q else 300, seed=run.seed, hasnew=True, log=True),
           dict(threads=4, ops=30, rounds=10 if q else 150, seed=run.seed + 3, hasnew=False, log=True)]
     pool = split_segments(run_driver(run, "pool-stress", pl), reset_key="ev", reset_val="reset")
+    # the New field assigned between calls (nil, one function, another one), values put back and fetched again
+    scripts = [dict(steps=list(sq)) for sq in (
+        ("get", "A", "get", "get", "put", "get", "nil", "get", "get", "B", "get", "put", "put", "get", "get", "get"),
+        ("A", "get", "nil", "get", "put", "get", "get", "A", "get"),
+        ("nil", "get", "get", "B", "get", "A", "get", "put", "put", "nil", "get", "get", "get"),
+        ("B", "get", "get", "get", "put", "put", "put", "nil", "get", "get", "get", "get", "A", "get"))]
+    for i in range(6 if q else 100):
+        scripts.append(dict(steps=[run.rng.choice(["get", "get", "get", "put", "put", "nil", "A", "B"]) for _ in range(run.rng.randint(6, 25))]))
+    pool += split_segments(run_driver(run, "pool-script", scripts), reset_key="ev", reset_val="reset")
     pool += split_segments(run_driver(run, "pool-holders", [dict(threads=64, ops=400, rounds=20 if q else 300, seed=run.seed, hasnew=True),
                                                             dict(threads=64, ops=400, rounds=10 if q else 150, seed=run.seed + 1, hasnew=False)]),
                            reset_key="ev", reset_val="reset")
